@@ -1,3 +1,191 @@
-(* Properties_C03.v -- placeholder header; theorems are added below as they are proved. *)
-From Amgcl Require Import Scalar QcInst Vec Crs Kernels MatOps Amg.
-Theorem C03_placeholder : True. Proof. exact I. Qed.
+(* Properties_C03.v -- every coarse level is the (re-scaled) Galerkin product; rebuild keeps it so.
+   Statements only; proofs in AmgProofs.v.  Model: Amg.v (build = do_init/step_down,
+   rebuild_levels = level::rebuild, amgcl/amg.hpp:358-512). *)
+From Coq Require Import QArith Qcanon.
+From Amgcl Require Import Scalar QcInst Vec Crs Kernels MatOps Amg AmgExec AmgProofs.
+Local Close Scope Qc_scope.
+Local Close Scope Q_scope.
+Local Open Scope S_scope.
+
+(* T1: the hierarchy produced by do_init is a Galerkin chain: every element but the last is
+   a level with transfer operators (LMid A P R) and its successor's matrix is
+   sort_rows (coarse_operator A P R); the last element is not an LMid; the first matrix is
+   the (row-sorted) input. *)
+Theorem C03_build_chain {S : Scalar} ce dc ml (cop : crs S -> crs S -> crs S -> crs S) ts M :
+  chain cop (amg_init ce dc ml cop ts M) /\ head_A (amg_init ce dc ml cop ts M) (sort_rows M).
+Proof. exact (amg_init_chain ce dc ml cop ts M). Qed.
+Print Assumptions C03_build_chain.
+
+Theorem C03_build_chain_any_level {S : Scalar} ce dc ml (cop : crs S -> crs S -> crs S -> crs S) ts A nlev :
+  chain cop (build ce dc ml cop ts A nlev).
+Proof. exact (build_chain ce dc ml cop ts A nlev). Qed.
+Print Assumptions C03_build_chain_any_level.
+
+(* the chain predicate read element-wise *)
+Theorem C03_chain_adjacent {S : Scalar} (cop : crs S -> crs S -> crs S -> crs S) ls :
+  chain cop ls -> forall i A P R next,
+  nth_error ls i = Some (LMid A P R) -> nth_error ls (Datatypes.S i) = Some next ->
+  ld_A next = sort_rows (cop A P R).
+Proof. exact (chain_adjacent cop ls). Qed.
+Print Assumptions C03_chain_adjacent.
+
+Theorem C03_chain_mid_iff_not_last {S : Scalar} (cop : crs S -> crs S -> crs S -> crs S) ls :
+  chain cop ls -> forall i l,
+  nth_error ls i = Some l -> (is_mid l = true <-> Datatypes.S i < length ls).
+Proof. exact (chain_mid_iff_not_last cop ls). Qed.
+Print Assumptions C03_chain_mid_iff_not_last.
+
+(* T2: rebuild keeps the transfer operators and re-establishes the chain on the new matrix *)
+Theorem C03_rebuild_keeps_transfers_and_chain {S : Scalar} (cop : crs S -> crs S -> crs S -> crs S) ls M' :
+  chain cop ls ->
+  chain cop (amg_rebuild cop ls M') /\ head_A (amg_rebuild cop ls M') (sort_rows M') /\
+  transfers_of (amg_rebuild cop ls M') = transfers_of ls.
+Proof. exact (amg_rebuild_chain cop ls M'). Qed.
+Print Assumptions C03_rebuild_keeps_transfers_and_chain.
+
+(* T3: rebuild = fresh hierarchy assembled from the new matrix with the same transfer operators *)
+Theorem C03_rebuild_is_fresh_build {S : Scalar} ce dc ml (cop : crs S -> crs S -> crs S -> crs S) :
+  coarse_shape cop -> forall ts M M', nrows M' = nrows M ->
+  amg_rebuild cop (amg_init ce dc ml cop ts M) M' = amg_init ce dc ml cop ts M'.
+Proof. exact (amg_rebuild_init ce dc ml cop). Qed.
+Print Assumptions C03_rebuild_is_fresh_build.
+
+(* ... also when the fresh build is given the (already row-sorted) operators stored in the hierarchy *)
+Theorem C03_rebuild_is_fresh_build_from_stored {S : Scalar} ce dc ml (cop : crs S -> crs S -> crs S -> crs S) :
+  coarse_shape cop -> forall ts M M', nrows M' = nrows M ->
+  amg_rebuild cop (amg_init ce dc ml cop ts M) M' =
+  amg_init ce dc ml cop (transfers_of (amg_init ce dc ml cop ts M)) M'.
+Proof. exact (amg_rebuild_stored ce dc ml cop). Qed.
+Print Assumptions C03_rebuild_is_fresh_build_from_stored.
+
+Theorem C03_rebuild_restores_original {S : Scalar} ce dc ml (cop : crs S -> crs S -> crs S -> crs S) :
+  coarse_shape cop -> forall ts M M', nrows M' = nrows M ->
+  amg_rebuild cop (amg_rebuild cop (amg_init ce dc ml cop ts M) M') M = amg_init ce dc ml cop ts M.
+Proof. exact (amg_rebuild_restore ce dc ml cop). Qed.
+Print Assumptions C03_rebuild_restores_original.
+
+(* all finite rebuild histories: only the last matrix counts *)
+Theorem C03_rebuild_history {S : Scalar} ce dc ml (cop : crs S -> crs S -> crs S -> crs S) :
+  coarse_shape cop -> forall ts M (Ms : list (crs S)) M',
+  Forall (fun X => nrows X = nrows M) Ms -> nrows M' = nrows M ->
+  amg_rebuild cop (fold_left (amg_rebuild cop) Ms (amg_init ce dc ml cop ts M)) M' =
+  amg_init ce dc ml cop ts M'.
+Proof. exact (amg_rebuild_history ce dc ml cop). Qed.
+Print Assumptions C03_rebuild_history.
+
+(* the shape hypothesis holds for both coarse operators of the library *)
+Theorem C03_galerkin_shape {S : Scalar} : coarse_shape (@galerkin S).
+Proof. exact galerkin_shape. Qed.
+Print Assumptions C03_galerkin_shape.
+Theorem C03_scaled_galerkin_shape {S : Scalar} (s : S) : coarse_shape (scaled_galerkin s).
+Proof. exact (scaled_galerkin_shape s). Qed.
+Print Assumptions C03_scaled_galerkin_shape.
+
+Theorem C03_sort_rows_idempotent {S : Scalar} (A : crs S) : sort_rows (sort_rows A) = sort_rows A.
+Proof. exact (sort_rows_idem A). Qed.
+Print Assumptions C03_sort_rows_idempotent.
+
+(* T4: last-level rule, number of levels, level sizes *)
+Theorem C03_last_level_rule {S : Scalar} ce dc ml (cop : crs S -> crs S -> crs S -> crs S) ts A nlev d :
+  match last (build ce dc ml cop ts A nlev) d with
+  | LSolve A' => nrows A' <= ce /\ dc = true
+  | LLast A' => nrows A' <= ce -> dc = false
+  | LMid _ _ _ => False
+  end.
+Proof. exact (build_last_rule ce dc ml cop ts A nlev d). Qed.
+Print Assumptions C03_last_level_rule.
+
+Theorem C03_direct_solver_iff {S : Scalar} ce dc ml (cop : crs S -> crs S -> crs S -> crs S) ts A nlev d :
+  (exists A', last (build ce dc ml cop ts A nlev) d = LSolve A') <->
+  (nrows (ld_A (last (build ce dc ml cop ts A nlev) d)) <= ce /\ dc = true).
+Proof. exact (build_last_solve_iff ce dc ml cop ts A nlev d). Qed.
+Print Assumptions C03_direct_solver_iff.
+
+Theorem C03_number_of_levels {S : Scalar} ce dc ml (cop : crs S -> crs S -> crs S -> crs S) ts A nlev :
+  length (build ce dc ml cop ts A nlev) + nlev <= Nat.max ml (nlev + 1).
+Proof. exact (build_length ce dc ml cop ts A nlev). Qed.
+Print Assumptions C03_number_of_levels.
+
+Theorem C03_level_sizes {S : Scalar} (cop : crs S -> crs S -> crs S -> crs S) ls :
+  coarse_shape cop -> chain cop ls -> forall i A P R next,
+  nth_error ls i = Some (LMid A P R) -> nth_error ls (Datatypes.S i) = Some next ->
+  nrows (ld_A next) = nrows R.
+Proof. exact (chain_sizes cop ls). Qed.
+Print Assumptions C03_level_sizes.
+
+(* T5: dense form (commutative ring): A_{l+1} = R A P, resp. (R A P) s; duplicates and any
+   storage order allowed *)
+Theorem C03_galerkin_dense {S : Scalar} (Srt : Sring S) (A P R : crs S) i j :
+  wf A = true -> wf R = true ->
+  mget (galerkin A P R) i j =
+  sumn (fun k => mget R i k * sumn (fun l => mget A k l * mget P l j) (ncols A)) (ncols R).
+Proof. exact (galerkin_dense Srt A P R i j). Qed.
+Print Assumptions C03_galerkin_dense.
+
+Theorem C03_scaled_galerkin_dense {S : Scalar} (Srt : Sring S) s (A P R : crs S) i j :
+  wf A = true -> wf R = true ->
+  mget (scaled_galerkin s A P R) i j =
+  sumn (fun k => mget R i k * sumn (fun l => mget A k l * mget P l j) (ncols A)) (ncols R) * s.
+Proof. exact (scaled_galerkin_dense Srt s A P R i j). Qed.
+Print Assumptions C03_scaled_galerkin_dense.
+
+Theorem C03_chain_levels_dense {S : Scalar} (Srt : Sring S) (ls : list (@ldesc S)) :
+  chain (@galerkin S) ls -> forall n A P R next i j,
+  nth_error ls n = Some (LMid A P R) -> nth_error ls (Datatypes.S n) = Some next ->
+  wf A = true -> wf R = true ->
+  mget (ld_A next) i j =
+  sumn (fun k => mget R i k * sumn (fun l => mget A k l * mget P l j) (ncols A)) (ncols R).
+Proof. exact (chain_galerkin_dense Srt ls). Qed.
+Print Assumptions C03_chain_levels_dense.
+
+Theorem C03_chain_levels_dense_scaled {S : Scalar} (Srt : Sring S) s (ls : list (@ldesc S)) :
+  chain (scaled_galerkin s) ls -> forall n A P R next i j,
+  nth_error ls n = Some (LMid A P R) -> nth_error ls (Datatypes.S n) = Some next ->
+  wf A = true -> wf R = true ->
+  mget (ld_A next) i j =
+  sumn (fun k => mget R i k * sumn (fun l => mget A k l * mget P l j) (ncols A)) (ncols R) * s.
+Proof. exact (chain_scaled_galerkin_dense Srt s ls). Qed.
+Print Assumptions C03_chain_levels_dense_scaled.
+
+(* closed instances at the exact rationals *)
+Theorem C03_galerkin_dense_Qc (A P R : crs QcS) i j : wf A = true -> wf R = true ->
+  mget (galerkin A P R) i j =
+  sumn (fun k => mget R i k * sumn (fun l => mget A k l * mget P l j) (ncols A)) (ncols R).
+Proof. exact (galerkin_dense QcS_ring A P R i j). Qed.
+Print Assumptions C03_galerkin_dense_Qc.
+
+Theorem C03_rebuild_is_fresh_build_Qc ce dc ml (sc : option (T QcS)) ts (M M' : crs QcS) :
+  nrows M' = nrows M ->
+  amg_rebuild (coarse_op_of sc) (amg_init ce dc ml (coarse_op_of sc) ts M) M' =
+  amg_init ce dc ml (coarse_op_of sc) ts M'.
+Proof.
+  exact (amg_rebuild_init ce dc ml (coarse_op_of sc)
+           (match sc as o return coarse_shape (coarse_op_of o) with
+            | Some s => scaled_galerkin_shape s | None => galerkin_shape end) ts M M').
+Qed.
+Print Assumptions C03_rebuild_is_fresh_build_Qc.
+
+(* non-vacuity: a concrete 3-level hierarchy over Qc (1D Laplacian, n = 4, pairwise aggregation) *)
+Definition exq (n : Z) : T QcS := qc n 1.
+Definition exM : crs QcS := mkCrs 4
+  [[(1, exq (-1)); (0, exq 2)]; [(0, exq (-1)); (1, exq 2); (2, exq (-1))];
+   [(3, exq (-1)); (2, exq 2); (1, exq (-1))]; [(2, exq (-1)); (3, exq 2)]]%nat.
+Definition exP1 : crs QcS := mkCrs 2 [[(0, exq 1)]; [(0, exq 1)]; [(1, exq 1)]; [(1, exq 1)]]%nat.
+Definition exR1 : crs QcS := mkCrs 4 [[(1, exq 1); (0, exq 1)]; [(2, exq 1); (3, exq 1)]]%nat.
+Definition exP2 : crs QcS := mkCrs 1 [[(0, exq 1)]; [(0, exq 1)]]%nat.
+Definition exR2 : crs QcS := mkCrs 2 [[(0, exq 1); (1, exq 1)]]%nat.
+Definition exTs := [Some (exP1, exR1); Some (exP2, exR2)].
+Definition exH := amg_init 1 true 10 (@galerkin QcS) exTs exM.
+
+Example C03_example_three_levels :
+  map is_mid exH = [true; true; false] /\
+  map (fun l => nrows (ld_A l)) exH = [4; 2; 1]%nat /\
+  ldesc_eqb (last exH (LLast exM)) (LSolve (mkCrs 1 [[(0%nat, exq 2)]])) = true.
+Proof. vm_compute. auto. Qed.
+
+Example C03_example_rebuild :
+  let M' := mscale exM (exq 3) in
+  hier_eqb (amg_rebuild (@galerkin QcS) exH M') (amg_init 1 true 10 (@galerkin QcS) exTs M') = true /\
+  hier_eqb (amg_rebuild (@galerkin QcS) (amg_rebuild (@galerkin QcS) exH M') exM) exH = true /\
+  hier_eqb (amg_rebuild (@galerkin QcS) exH M') exH = false.
+Proof. vm_compute. auto. Qed.
